@@ -94,6 +94,7 @@ class ThrRunner:
             self.logger.handlers = [self.handler]
             self.logger.propagate = False
             self.logger.setLevel(logging.DEBUG)
+            self.logger.disabled = False
             self._logger_arg = self.logger
         else:
             # default logger of the package ("scheduler"): observe it with our handler
@@ -101,6 +102,7 @@ class ThrRunner:
             self.logger.handlers = [self.handler]
             self.logger.propagate = False
             self.logger.setLevel(logging.DEBUG)
+            self.logger.disabled = False
             self._logger_arg = None
         if scn.get("prio", 0) == 2:
             # arbitrary deterministic user function: a table key -> value (default 0), optionally
@@ -190,21 +192,34 @@ class ThrRunner:
         return cb
 
     def run_cop(self, c):
+        """one scripted operation performed by a callback on its own scheduler; the outcome is
+        recorded for the bookkeeping of the Spec oracles"""
         k = c["op"]
+        rec = {"op": k}
         try:
             if k == "sch":
-                self.do_sched(c, CLOCK.instant)
+                rec["tags"] = list(c.get("tags") or [])
+                rec["key"] = self.do_sched(c, CLOCK.instant)
             elif k == "del":
+                rec["key"] = c["key"]
                 self.sched.delete_job(self.created[c["key"]])
             elif k == "dtags":
-                self.sched.delete_jobs(py_tags(c.get("tags"), "set"), c.get("any", False))
+                rec["tags"], rec["any"] = c.get("tags"), bool(c.get("any", False))
+                rec["before"] = sorted(self.key_of[id(j)] for j in self.sched.jobs)
+                rec["n"] = self.sched.delete_jobs(py_tags(c.get("tags"), "set"), bool(c.get("any", False)))
+                rec["after"] = sorted(self.key_of[id(j)] for j in self.sched.jobs)
             elif k == "get":
-                self.sched.get_jobs(py_tags(c.get("tags"), "set"), c.get("any", False))
+                self.sched.get_jobs(py_tags(c.get("tags"), "set"), bool(c.get("any", False)))
             elif k == "str":
-                str(self.sched)
+                rec["len"] = len(str(self.sched))
+            rec["ok"] = True
         except Exception as e:  # a scripted op may legitimately fail (e.g. delete twice)
+            rec["ok"] = False
+            rec["err"] = err_kind(e)
             if self.cur is not None:
                 self.cur.setdefault("cop_errors", []).append(err_kind(e))
+        if self.cur is not None:
+            self.cur.setdefault("cops", []).append(rec)
 
     # ------------------------------------------------------------ ops
     def do_sched(self, o, clock, direct=False):
@@ -284,6 +299,7 @@ class ThrRunner:
 
                 jt = [JobType.CYCLIC, JobType.MINUTELY, JobType.HOURLY, JobType.DAILY, JobType.WEEKLY][o["call"]]
                 jtz = o["_jobtz"] if "_jobtz" in o else self.scn.get("tz")
+                o["_schedtz"] = self.scn.get("tz")
                 job = Job(jt, ts, cb, tzinfo=tz_of(jtz), **kw)
             else:
                 job = getattr(self.sched, call)(timing, cb, **kw)
@@ -318,16 +334,22 @@ class ThrRunner:
             if k == "sch" and o.get("ctor"):
                 res = self.ctor_results[self.ctor_pos]
                 self.ctor_pos += 1
+                if res[0] == "j":
+                    self.ctor_visible = res[1] + 1
                 if self.ctor_error:
                     res = ("e", self.ctor_error)
                 obs["res"] = res
-                if res[0] == "j":
-                    self.ctor_visible = res[1] + 1
                 obs["_visible"] = getattr(self, "ctor_visible", 0)
             elif k == "sch":
                 key = self.do_sched(o, o.get("clock"))
                 obs["res"] = ("j", key)
             elif k == "exec":
+                lv = o.get("log")
+                if lv is not None:
+                    # the user's logging configuration changes between polls
+                    self.logger.disabled = lv == "disabled"
+                    self.logger.setLevel({"debug": logging.DEBUG, "error": logging.ERROR, "critical": logging.CRITICAL,
+                                          "disabled": logging.DEBUG}[lv])
                 if "rel" in o and "clock" not in o:
                     # adaptive poll: relative to the observed due time of a job, never going back
                     kk, delta = o["rel"]
@@ -350,6 +372,7 @@ class ThrRunner:
                     obs["invoked"] = cur["invoked"]
                     obs["prio"] = cur["prio"]
                     obs["cop_errors"] = cur.get("cop_errors", [])
+                    obs["cops"] = cur.get("cops", [])
                     if o.get("force"):
                         obs["order"] = [i[0] for i in cur["invoked"]]
                     else:
